@@ -82,6 +82,8 @@ Params(f) ==
                            thB |-> Pick({<<0, 1>>, <<5, 1>>}, {<<-5, 1>>}), gB |-> Pick({<<7, 5>>, <<5, 3>>}, {}),
                            pT |-> Pick({<<1, 2>>, <<3, 1>>}, {<<1, 1>>}), rT |-> Pick({<<1, 4>>, <<1, 1>>}, {}), MT |-> Pick({<<7, 1>>, <<3, 1>>}, {<<2, 1>>}),
                            thT |-> Pick({<<0, 1>>, <<-5, 1>>}, {<<10, 1>>}), gT |-> Pick({<<7, 5>>}, {<<5, 3>>})]
+    [] f = "Guderley" -> \* gamma = 2, 3 (, 4): the similarity exponent takes seconds; minutes per call for 1.4 or 5/3
+                         [geometry |-> {2, 3}, gamma |-> Pick({<<3, 1>>}, {<<2, 1>>, <<4, 1>>}), rho0 |-> Pick({<<1, 1>>, <<5, 2>>}, {})]
     [] f = "RMTV" -> \* the tri-lab problem (a, b, gamma, xi_f, xi_s and its eigenvalue beta0 fixed); position of the heat front = time
                      [rf |-> Pick({<<9, 10>>, <<1, 2>>}, {<<3, 10>>}), chi0 |-> Pick({<<1, 1>>, <<2, 1>>}, {}), g0 |-> Pick({<<1, 1>>}, {<<2, 1>>}),
                       bigamma |-> Pick({<<1, 1>>, <<2, 1>>}, {})]
@@ -137,6 +139,7 @@ TimesOf(f, p) ==
     [] f = "RiemannJWL" -> Pick({<<12, 1>>}, {<<5, 1>>})
     [] f = "SDRZ" -> Pick({<<1, 2>>, <<2, 1>>, <<13, 5>>}, {<<1, 1>>})       \* before / after the end of the reaction (t = 1), 2.6 is not on the solver's time grid
     [] f = "SuOlson" -> Pick({<<1, 10>>, <<1, 1>>, <<10, 1>>}, {<<1, 100>>, <<3, 1>>})     \* dimensionless time tau
+    [] f = "Guderley" -> Pick({<<2, 5>>, <<1, 1>>}, {<<13, 20>>, <<3, 2>>})      \* the shock collapses at t = 0.750024322: before and after
     [] f \in {"Rod1D", "Hutchens1", "RodNH", "Sandwich", "Rectangle", "Hutchens2"} -> Pick({<<1, 10>>, <<1, 2>>}, {<<1, 100>>})
     [] OTHER -> Times
 
